@@ -182,10 +182,19 @@ def _v5(ctx: Ctx, f: Func, loop: ast.While, var: str, dec_calls, body_nodes) -> 
     if not produced:
         return "", "decoder result is not bound to a name"
 
+    # locals holding the length of the produced data (chunk_len = len(chunk))
+    size_names: Set[str] = set()
+    for n in body_nodes:
+        if isinstance(n, ast.Assign) and isinstance(n.targets[0], ast.Name) and isinstance(n.value, ast.Call) and dotted(n.value.func) == "len" \
+                and n.value.args and isinstance(n.value.args[0], ast.Name) and n.value.args[0].id in produced:
+            size_names.add(n.targets[0].id)
+
     def about_emptiness(e: ast.AST) -> bool:
-        # len(tmp) == 0 / len(tmp) > 0 / not tmp / tmp  (on a produced name)
+        # len(tmp) == 0 / len(tmp) > 0 / not tmp / tmp  (on a produced name, or on a local holding its length)
         for n in ast.walk(e):
             if isinstance(n, ast.Call) and dotted(n.func) == "len" and n.args and isinstance(n.args[0], ast.Name) and n.args[0].id in produced:
+                return True
+            if isinstance(n, ast.Name) and n.id in size_names:
                 return True
         if isinstance(e, ast.Name) and e.id in produced:
             return True
@@ -331,13 +340,42 @@ def _bound_uses(f: Func, tainted: Set[str]):
             yield n, "alloc", n.args[0], []
 
 
-def _body_consumes(body: List[ast.AST]) -> bool:
+_consume_memo: Dict[str, bool] = {}
+
+
+def _func_consumes(ctx: Ctx, g: Func, depth: int = 3) -> bool:
+    """every normal path through g performs a consuming read (directly or through a helper that does)."""
+    if g.qname in _consume_memo:
+        return _consume_memo[g.qname]
+    _consume_memo[g.qname] = False
+    cfg = cfg_of(g.node)
+    nodes = []
+    for c in q.calls(g):
+        hit = attr_tail(c) in CONSUMING_READS or (attr_tail(c) == "read" and c.args and isinstance(c.args[0], ast.Constant) and c.args[0].value >= 1)
+        if not hit and depth > 0:
+            for tq in shared.targets_of(ctx, g, c):
+                h = ctx.res._func_by_q(tq)
+                if h is not None and h.module == "archiveinfo" and _func_consumes(ctx, h, depth - 1):
+                    hit = True
+        if hit:
+            nodes.append(q.node_for(g, c))
+    ok = bool(nodes) and cfg.every_path_to_exit_passes(cfg.entry, nodes)
+    _consume_memo[g.qname] = ok
+    return ok
+
+
+def _body_consumes(body: List[ast.AST], ctx: Optional[Ctx] = None, f: Optional[Func] = None) -> bool:
     for st in body:
         for c in ast.walk(st):
             if isinstance(c, ast.Call) and attr_tail(c) in CONSUMING_READS:
                 return True
             if isinstance(c, ast.Call) and attr_tail(c) == "read" and c.args and isinstance(c.args[0], ast.Constant) and c.args[0].value >= 1:
                 return True
+            if isinstance(c, ast.Call) and ctx is not None and f is not None:
+                for tq in shared.targets_of(ctx, f, c):
+                    h = ctx.res._func_by_q(tq)
+                    if h is not None and h.module == "archiveinfo" and _func_consumes(ctx, h):
+                        return True
     return False
 
 
@@ -373,7 +411,7 @@ def r05_2(ctx: Ctx, closure: Dict[str, Func]) -> None:
             n_sites += 1
             key = _for_key(node)
             site = f"{fq}: {key}"
-            if kind in ("for", "comp") and _body_consumes(body):
+            if kind in ("for", "comp") and _body_consumes(body, ctx, f):
                 ctx.ok("R05.2", site, "each iteration performs a consuming read: work is bounded by the input length")
                 continue
             if (fq, key) in RELATIONAL_OK:
